@@ -179,8 +179,8 @@ func caseVariant(m interface{}) ref.Variant {
 	return v
 }
 
-func str(m map[string]interface{}, k string) string { s, _ := m[k].(string); return s }
-func hexf(m map[string]interface{}, k string) []byte  { return ev.UnHex(str(m, k)) }
+func str(m map[string]interface{}, k string) string  { s, _ := m[k].(string); return s }
+func hexf(m map[string]interface{}, k string) []byte { return ev.UnHex(str(m, k)) }
 func boolf(m map[string]interface{}, k string) bool  { b, _ := m[k].(bool); return b }
 func intf(m map[string]interface{}, k string) int {
 	switch x := m[k].(type) {
